@@ -5,8 +5,8 @@
    the encoding validators enc_valid / enc_vof (cppcms::encoding::valid / validate_or_filter) are
    universally quantified functions constrained only by the stated premises in sections 1-8; section 9
    instantiates them with the concrete validators selected by the encoding name (DefsE.v) and has no such premise. *)
-From CppcmsV Require Import Base.Tac Base.Sweep C04.Defs C04.DefsX C04.DefsU C04.ProofsX C04.ProofsU C04.ProofsU2 C04.ProofsU3 C04.ProofsI C04.Proofs1 C04.Proofs2 C04.Proofs3 C04.Proofs4 C04.Proofs5 C04.Proofs6 C04.Proofs7 C04.Proofs8 C04.Proofs9 C04.Proofs10 C04.Proofs11 C04.Proofs12 C04.Link C04.DefsE C04.ProofsE C04.ProofsE2 C04.LinkE C04.LinkN C04.LinkS C04.LinkC Base.CSem gen.Gen_xss gen.Gen_xss2 gen.Gen_uri gen.Gen_cstr gen.Gen_C04utf gen.Gen_C04next gen.Gen_C04enc gen.Gen_C04ctl.
-From CppcmsV Require C14.Defs C14.Spec C14.Proofs3.
+From CppcmsV Require Import Base.Tac Base.Sweep C04.Defs C04.DefsX C04.DefsU C04.ProofsX C04.ProofsU C04.ProofsU2 C04.ProofsU3 C04.ProofsI C04.Proofs1 C04.Proofs2 C04.Proofs3 C04.Proofs4 C04.Proofs5 C04.Proofs6 C04.Proofs7 C04.Proofs8 C04.Proofs9 C04.Proofs10 C04.Proofs11 C04.Proofs12 C04.Link C04.DefsE C04.ProofsE C04.ProofsE2 C04.LinkE C04.LinkN C04.LinkS C04.LinkC C04.LinkR C04.DefsR C04.ProofsR C04.DefsN C04.ProofsN Base.CSem gen.Gen_xss gen.Gen_xss2 gen.Gen_uri gen.Gen_cstr gen.Gen_C04utf gen.Gen_C04next gen.Gen_C04enc gen.Gen_C04ctl.
+From CppcmsV Require C14.Defs C14.Spec C14.Proofs3 C20.Defs C20.Regex.
 Local Open Scope N_scope.
 Module D := C14.Defs. Module S := C14.Spec. Module P3 := C14.Proofs3.
 
@@ -775,6 +775,14 @@ Theorem src_encoding_control : g_c04_control = encoding_control_as_modelled.
 Proof. exact link_encoding_control. Qed.
 Print Assumptions src_encoding_control.
 
+(* RIGID ties (LinkR.v): the text that booster::regex wraps around a pattern to obtain the full-match form ("(?:" pattern ")" backslash z,
+   compiled into d->are, run by regex::match with PCRE_ANCHORED; booster::regex_match = r.match; the regex_functor of xss.cpp calls
+   regex_match), and the conversion of the digits of a numeric character reference (long code_point = strtol(begin,&endptr,16 / 10)),
+   as rendered from the AST of the checked tree, are literally the text the model's reading of them was written from *)
+Theorem src_regex_anchoring_and_entity_conversion : g_c04_rigid_control = rigid_control_as_modelled.
+Proof. exact link_rigid_control. Qed.
+Print Assumptions src_regex_anchoring_and_entity_conversion.
+
 (* non-vacuity: rule set ex_rules with encoding "UTF-8"; the boundary code points in shortest form are accepted, every
    over-long form, surrogate, truncated sequence, stray trail byte and forbidden control is refused and removed *)
 Definition ex_utf8 : list N := [85;84;70;45;56].
@@ -865,3 +873,89 @@ Theorem c04_converted_rule_sets :
      exists u, tus x = Some u /\ exists cps, Forall S.scalar cps /\ Forall S.html_safe cps /\ u = flat_map S.rfc_encode cps).
 Proof. exact c04_converted_rule_sets_l. Qed.
 Print Assumptions c04_converted_rule_sets.
+
+(* ---- 11. regex-typed attributes and numeric character references, made concrete.
+        RX = coq/C20/Defs.v (regular expressions, derivative matcher full_match), RL = coq/C20/Regex.v (the declarative language
+        `lang` and full_match_spec), imported read-only.  parse_pattern (DefsR.v) reads the pattern family the rule sets of the
+        check use.  The anchoring that makes booster::regex_match a FULL match is tied by src_regex_anchoring_and_entity_conversion. ---- *)
+Module RX := C20.Defs.
+Module RL := C20.Regex.
+
+(* the model of regex_functor accepts exactly the values that are, as a whole, in the language of the pattern *)
+Theorem regex_validator_exact : forall p v,
+  re_validate p v = Some true <-> exists r, parse_pattern p = Some r /\ RL.lang r v.
+Proof. exact re_validate_exact. Qed.
+Print Assumptions regex_validator_exact.
+
+(* through the rule set: an attribute registered with a regex validator is accepted only if the WHOLE value (the text between
+   the quotes, as validate_entry_by_rules hands it to the validator) is in the language of the pattern; via `whitelisted`
+   (attr_allowed) this holds for every attribute of every tag that validate accepts or filter copies *)
+Theorem regex_attribute_checked : forall r vfun tag pn k p re v,
+  find_prop r tag pn = Some (VFun k) -> parse_pattern p = Some re ->
+  (forall x, vfun k x = RX.full_match re x) ->
+  c_val_ok r vfun tag pn v = true -> RL.lang re v.
+Proof. exact regex_attribute_whole_value. Qed.
+Print Assumptions regex_attribute_checked.
+
+(* what "in the language" means for the class patterns of the family: exactly the strings over the class - nothing may follow *)
+Theorem regex_class_languages : forall cs v,
+  (RL.lang (RX.Cat (RX.Plus (RX.Cls cs)) RX.Eps) v <-> forallb (RX.cmem cs) v = true /\ v <> []) /\
+  (RL.lang (RX.Cat (RX.Star (RX.Cls cs)) RX.Eps) v <-> forallb (RX.cmem cs) v = true).
+Proof. exact (fun cs v => conj (class_plus_language cs v) (class_star_language cs v)). Qed.
+Print Assumptions regex_class_languages.
+
+(* the class of the missed defect: under [a-z]+ a value followed by ANY byte outside a-z (line feed, CR, NUL, blank, ...) is refused *)
+Theorem regex_rejects_trailing_byte : forall v c,
+  ((c <? 97) || (122 <? c)) = true -> re_validate lower_plus (v ++ [c]) = Some false.
+Proof. exact lower_plus_rejects_trailing_byte. Qed.
+Print Assumptions regex_rejects_trailing_byte.
+
+(* the scheme expression of a URI validator is applied the same way (booster::regex_match on the scheme range): with a pattern of the
+   family, the scheme a browser reads is, as a whole, in the language of the scheme pattern *)
+Theorem uri_scheme_in_pattern_language : forall re v sc,
+  uri_validate UBoth (RX.full_match re) v = true -> visible_scheme v = Some sc -> RL.lang re sc.
+Proof.
+  exact (fun re v sc H V => proj1 (RL.full_match_spec sc re) (uri_both_scheme_checked (RX.full_match re) v sc H V)).
+Qed.
+Print Assumptions uri_scheme_in_pattern_language.
+
+Example regex_nonvacuous :
+  re_validate lower_plus [105;110;116;114;111] = Some true /\                          (* intro *)
+  re_validate lower_plus [105;110;116;114;111;10] = Some false /\                       (* intro LF *)
+  re_validate lower_plus [10;105;110;116;114;111] = Some false /\
+  re_validate lower_plus [105;110;10;116;114;111] = Some false /\
+  re_validate lower_plus [] = Some false /\
+  re_validate [46;42] [97;32;98] = Some true /\ re_validate [46;42] [97;10] = Some false /\         (* .* : a dot is not a line feed *)
+  re_validate [91;97;45;122;32;93;42] [97;32;98] = Some true /\ re_validate [91;97;45;122;32;93;42] [97;9;98] = Some false /\
+  re_validate [40;104;116;116;112;124;104;116;116;112;115;41] [104;116;116;112;115] = Some true /\ (* (http|https) https *)
+  re_validate [40;104;116;116;112;124;104;116;116;112;115;41] [104;116;116;112;115;10] = Some false /\
+  re_validate [97;40;63;61;98;41] [97] = None.                                                     (* a(?=b): outside the family *)
+Proof. vm_compute. repeat split. Qed.
+
+(* numeric character references: the conversion as the code performs it (long code_point = strtol(...), saturating at LONG_MAX;
+   DefsN.v) gives, for every text, the verdict of the mathematical value of the digit string (Defs.v: parse_entity) *)
+Theorem numeric_reference_conversion_exact : forall text, parse_entity_c text = parse_entity text.
+Proof. exact entity_conversion_exact. Qed.
+Print Assumptions numeric_reference_conversion_exact.
+
+(* ... so a numeric reference is recognised iff the mathematical value of its digit string - of ANY length - is a permitted
+   code point (cp_ok: at most 0x10FFFF, not D800..DBFF, FFFE, FFFF, 7F..9F, no C0 control other than tab LF CR) *)
+Theorem numeric_reference_accepted_iff :
+  (forall ds, ds <> [] -> forallb is_digit ds = true ->
+     (fst (parse_entity_c (38 :: [35] ++ ds ++ [59])) = NumEntity <-> cp_ok (num_val 10 ds) = true)) /\
+  (forall x ds, x = 120 \/ x = 88 -> ds <> [] -> forallb is_xdigit ds = true ->
+     (fst (parse_entity_c (38 :: [35; x] ++ ds ++ [59])) = NumEntity <-> cp_ok (num_val 16 ds) = true)).
+Proof. exact (conj decimal_reference_iff hex_reference_iff). Qed.
+Print Assumptions numeric_reference_accepted_iff.
+
+(* &#4294967356; = 2^32 + 60, &#x10000003C;, &#x10010FFFF;, 2^64 + 65, forty digits: refused, although the low 32 bits are an
+   allowed code point (what a 32 bit variable would have held) *)
+Example numeric_reference_nonvacuous :
+  fst (parse_entity_c [38;35;52;50;57;52;57;54;55;51;53;54;59]) = Invalid /\ cp_ok (as_int32 4294967356) = true /\
+  fst (parse_entity_c [38;35;120;49;48;48;48;48;48;48;51;67;59]) = Invalid /\
+  fst (parse_entity_c [38;35;120;49;48;48;49;48;70;70;70;70;59]) = Invalid /\
+  fst (parse_entity_c [38;35;49;56;52;52;54;55;52;52;48;55;51;55;48;57;53;53;49;54;56;49;59]) = Invalid /\        (* 2^64 + 65 *)
+  fst (parse_entity_c ([38;35] ++ repeat 48 38 ++ [54;48;59])) = NumEntity /\                                      (* &#000...060; *)
+  fst (parse_entity_c ([38;35] ++ repeat 57 40 ++ [59])) = Invalid /\
+  fst (parse_entity_c [38;35;54;48;59]) = NumEntity /\ fst (parse_entity_c [38;35;120;49;48;70;70;70;70;59]) = NumEntity.
+Proof. vm_compute. repeat split. Qed.
